@@ -82,8 +82,6 @@ Section Commit.
   Proof.
     intros H1 H2 H3 Hstep Hin.
     inv_step Hstep; msg_cases Hin; auto; right; rewrite ?upd_eq; cbn [term log].
-    - (* BecomeLeader *) rewrite updg_eq. repeat split; auto.
-    - (* Propose *) rewrite updg_eq. repeat split; auto.
     - (* stale AE: answer with commit *)
       match goal with Hae : In (AE _ _ _ _ _ _) _ |- _ =>
         destruct (i_ae n H2 _ _ _ _ _ _ Hae) as (Hlead & _) end.
@@ -95,6 +93,9 @@ Section Commit.
         destruct (i_ae n H2 _ _ _ _ _ _ Hae) as (Hlead & Hlen & _);
         destruct (handle_ae_log n _ _ _ _ _ _ _ _ _ H2 Hae (i_log_ok n H2 w) eq_refl Hta)
           as (_ & Hag) end.
+      repeat split; auto.
+    - (* SelfAck *)
+      match goal with Hr : role (nodes n ?k) = Leader |- _ => rewrite (i_leader_log n H2 k Hr) end.
       repeat split; auto.
   Qed.
 
@@ -121,19 +122,29 @@ Section Commit.
 
   (* ---- how the log of a node changes in one step ---- *)
 
+  Lemma acks_le_spec ms i m t ldr k :
+    acks_le ms i m = true -> In (Ack t i ldr k) ms -> k <= m.
+  Proof.
+    unfold acks_le. intros H Hin. rewrite forallb_forall in H. specialize (H _ Hin).
+    simpl in H. rewrite Nat.eqb_refl in H. simpl in H. now apply Nat.leb_le.
+  Qed.
+
   Lemma step_log_cases n l n' w :
     step n l n' ->
     (exists e, log (nodes n' w) = log (nodes n w) ++ e) \/
     (exists T ldr prev pt ents lc,
        In (AE T ldr prev pt ents lc) (msgs n) /\ term (nodes n w) = T /\ term (nodes n' w) = T /\
        term_at (log (nodes n w)) prev = pt /\
-       try_append (log (nodes n w)) (commit (nodes n w)) prev ents = Some (log (nodes n' w))).
+       try_append (log (nodes n w)) (commit (nodes n w)) prev ents = Some (log (nodes n' w))) \/
+    (exists m, log (nodes n' w) = firstn m (log (nodes n w)) /\ hcommit (nodes n w) <= m /\
+               acks_le (msgs n) w m = true).
   Proof.
     intros Hstep.
     inv_step Hstep; simp_upd;
       try (left; exists []; now rewrite app_nil_r);
       try (left; eexists; reflexivity).
-    right. do 6 eexists. repeat split; eauto.
+    - right. left. do 6 eexists. repeat split; eauto.
+    - right. right. eexists. repeat split; eauto.
   Qed.
 
   (* ---- the election argument, in state n ---- *)
@@ -241,7 +252,8 @@ Section Commit.
                                blamed n' t k (term (nodes n' w))).
     { intros T Hb HT. eapply blamed_mono; [eapply blamed_gext; eauto | exact HT]. }
     destruct (step_log_cases n l n' w Hstep)
-      as [(e & He)|(T & ldr' & prev & pt & ents & lc & Hae & HT & HT' & Hpt & Hta)].
+      as [(e & He)|[(T & ldr' & prev & pt & ents & lc & Hae & HT & HT' & Hpt & Hta)
+                   |(m0 & Hm0 & _ & Hacks)]].
     - destruct (i_ack_node V n H3 t w k Hack) as [Hag|Hb]; [left | right; eauto].
       rewrite He. apply (agree_gext_r n n' k _ t Hg Hklen).
       apply agree_ext_l; [exact Hag|]. apply agree_sym in Hag. eapply agree_len; eauto.
@@ -249,6 +261,10 @@ Section Commit.
         as [Hag|Hb].
       + left. now apply (agree_gext_r n n' k _ t Hg Hklen).
       + right. apply (Hblame T Hb). lia.
+    - destruct (i_ack_node V n H3 t w k Hack) as [Hag|Hb]; [left | right; eauto].
+      rewrite Hm0. apply (agree_gext_r n n' k _ t Hg Hklen).
+      eapply agree_trans; [|exact Hag]. apply agree_firstn.
+      pose proof (acks_le_spec _ _ _ _ _ _ Hacks Hold). lia.
   Qed.
 
   (* what handling a matching AE does to the log, relative to hcommit *)
@@ -291,6 +307,7 @@ Section Commit.
         assert (1 <= term (nodes n i)) by (apply Hrt; congruence);
         assert (1 <= k <= length (log (nodes n i))) by (apply term_at_in_range; lia) end.
       lia.
+    - rewrite firstn_length. lia.
   Qed.
 
   Lemma I_hcommit_step n l n' : inv1 n -> inv2 n -> inv3 n -> step n l n' -> I_hcommit V n'.
@@ -341,6 +358,7 @@ Section Commit.
       apply (cprefix_gext V n _ _ _ _ Hg).
       eapply cprefix_agree; [exact Hc|].
       destruct (i_ack_node V n H3 _ _ _ Hack) as [Hag|(U & HU & _)]; [exact Hag | lia].
+    - (* Restart *) eapply cprefix_agree; eauto. apply agree_firstn. lia.
   Qed.
 
   Lemma I_ae_commit_step n l n' : inv1 n -> inv2 n -> inv3 n -> step n l n' -> I_ae_commit V n'.
@@ -454,7 +472,7 @@ Section Commit.
     simp_updg; [|congruence]. injection Hl' as <-.
     destruct (count_vote_quorum V V_nodup n _ _ H0) as (Q & HQ & HQw).
     exists Q. split; [exact HQ|]. intros w Hw. destruct (HQw w Hw) as (vl & Hv).
-    split; [exists vl; now right|].
+    split; [now exists vl|].
     intros t k Hlt Hk (ldr & m & Hkm & Hin) Hterm.
     assert (Hne : t <> term (nodes n i)) by lia.
     rewrite (updg_neq _ _ _ _ Hne) in *.
